@@ -45,13 +45,13 @@ def menu(name, L):
     c = []
     WS = (-1, None, 1, 2, 3, 4, L + 1)
     if name in ('c03', 'c03x'):
-        for p in (('ab',), ('aba',), ('b', 'abab')):
+        for p in (('ab',), ('aba',), ('b', 'abab'), ('abab',)):
             for sw in WS:
                 c.append(('exact', p, sw, 5))
         c += [('exact', ('ab', 'TIMEOUT'), 2, 0), ('exact', ('aba', 'TIMEOUT'), -1, 0),
               ('exact', ('abab', 'TIMEOUT'), 1, 5)]
     if name in ('c03', 'c03r'):
-        for p in (('ab',), ('aba',), ('b', 'abab')):
+        for p in (('ab',), ('aba',), ('b', 'abab'), ('abab',)):
             for sw in WS:
                 c.append(('expect', p, sw, 5))
         c += [('expect', ('ab', 'TIMEOUT'), 2, 0), ('expect', ('aba', 'TIMEOUT'), -1, 0),
